@@ -6,11 +6,12 @@ sys.path.insert(0, HERE)
 os.environ.setdefault('RPVERIF_QUIET', '1')
 
 props = [json.loads(l) for l in open(os.path.join(HERE, 'properties.jsonl'))]
+READY = set(open(os.path.join(HERE, 'tools', 'ready.txt')).read().split())
 checks, na = [], []
 for p in props:
     pid = p['id']
     path = os.path.join(HERE, 'rpverif', 'props', pid.lower() + '.py')
-    if not os.path.isfile(path):
+    if not os.path.isfile(path) or pid not in READY:
         na.append({'property_id': pid, 'reason': 'check not built yet (work in progress; the design in DESIGN.md section 3 applies)'})
         continue
     src = open(path).read()
